@@ -137,7 +137,7 @@ func Main() string {
 	f64 := float64(f32)
 	out += btoa(f64+1 == f64) + " "
 	i := 7
-	out += ftoa(float64(i)/2) + " " + itoa(int(3.99)) + " " + itoa(int(-3.99)) + " "
+	out += ftoa(float64(i)/2) + " " + itoa(int(a*2.66)) + " " + itoa(int(-a*2.66)) + " "
 	var u8 uint8 = 200
 	out += ftoa(float64(u8)*1.5) + " " + itoa(int(int8(float64(u8)*0.5))) + " "
 	third := float32(1) / 3
